@@ -8,6 +8,7 @@
 //     NewIngester reads the io.Reader that schema.NewTransform hands over, i.e. exactly
 //     ios.StripBOM(WrapEncoding(input)) as composed by the code under test (PipeCase);
 //   - transcripts: the seven built-in formats with "encoding" added to parser_settings.
+//
 // Oracle (Go side, independent of x/text: the code pages below are written from the Unicode
 // mapping files): transcript(bytes, X) == transcript(utf8_of_X(bytes), utf-8); the stream the
 // ingester receives == utf8_of_X(bytes) (one leading BOM removed for utf-8 only), for every way
@@ -293,7 +294,7 @@ func min(a, b int) int {
 // ---- case descriptions (replayable) -----------------------------------------------------------------
 
 type caseDesc struct {
-	Kind     string `json:"kind"` // table | pipe | transcript
+	Kind     string `json:"kind"`     // table | pipe | transcript
 	Enc      string `json:"encoding"` // "" = no encoding setting
 	InputHex string `json:"input_hex,omitempty"`
 	Mode     string `json:"reader,omitempty"`
